@@ -271,6 +271,11 @@ func vBlob(name string) []byte {
 	}
 	var buf bytes.Buffer
 	corrupt, _ := vx.inputs[n+".inflate_err"].(bool)
+	// the solver may have constrained the first byte of the raw (compressed) presentation: honour it when a
+	// DEFLATE stream can start with that byte (non-final dynamic-Huffman block: low bits 100, HLIT = upper 5 bits)
+	if want, _ := vx.inputs[n].(string); !corrupt && len(want) > 0 && want[0]&7 == 4 && want[0]>>3 <= 29 {
+		return vxDeflateStartingWith(want[0], payload)
+	}
 	if corrupt {
 		fw, _ := flate.NewWriter(&buf, flate.NoCompression)
 		fw.Write(payload)
@@ -1061,4 +1066,154 @@ func vConfigSig(sp *SAMLServiceProvider) string {
 		fmt.Fprintf(&b, "%s=%v;", f.Name, v.Field(i).Interface())
 	}
 	return b.String()
+}
+
+// ---- xmlm differential: canonical rendering of decoded values (same format as the engine's vDump) ----
+
+func vxDumpValue(v reflect.Value, b *strings.Builder, depth int) {
+	if depth > 40 {
+		b.WriteString("...")
+		return
+	}
+	if v.Type() == reflect.TypeOf(time.Time{}) {
+		b.WriteString("T")
+		return
+	}
+	switch v.Kind() {
+	case reflect.String:
+		b.WriteString(strconv.Quote(v.String()))
+	case reflect.Bool:
+		fmt.Fprintf(b, "%v", v.Bool())
+	case reflect.Int, reflect.Int8, reflect.Int16, reflect.Int32, reflect.Int64:
+		fmt.Fprintf(b, "%d", v.Int())
+	case reflect.Uint, reflect.Uint8, reflect.Uint16, reflect.Uint32, reflect.Uint64:
+		fmt.Fprintf(b, "%d", v.Uint())
+	case reflect.Ptr:
+		if v.IsNil() {
+			b.WriteString("nil")
+			return
+		}
+		b.WriteString("&")
+		vxDumpValue(v.Elem(), b, depth+1)
+	case reflect.Struct:
+		b.WriteString("{")
+		for i := 0; i < v.NumField(); i++ {
+			f := v.Type().Field(i)
+			if f.PkgPath != "" || f.Name == "XMLName" {
+				continue
+			}
+			b.WriteString(f.Name + ":")
+			vxDumpValue(v.Field(i), b, depth+1)
+			b.WriteString(";")
+		}
+		b.WriteString("}")
+	case reflect.Slice:
+		if v.Type().Elem().Kind() == reflect.Uint8 {
+			b.WriteString("B")
+			return
+		}
+		b.WriteString("[")
+		for i := 0; i < v.Len(); i++ {
+			if i > 0 {
+				b.WriteString(",")
+			}
+			vxDumpValue(v.Index(i), b, depth+1)
+		}
+		b.WriteString("]")
+	default:
+		b.WriteString("I")
+	}
+}
+
+func vDump(label string, ok bool, v interface{}) {
+	var b strings.Builder
+	fmt.Fprintf(&b, "ok=%v ", ok)
+	vxDumpValue(reflect.ValueOf(v), &b, 0)
+	vx.notes = append(vx.notes, "DUMP "+label+" "+b.String())
+}
+
+// ---- a tiny DEFLATE bit writer: an empty non-final dynamic-Huffman block whose header byte is chosen,
+// followed by stored blocks carrying the payload ----
+
+type vxBitWriter struct {
+	out  []byte
+	cur  uint64
+	nbit uint
+}
+
+func (w *vxBitWriter) bits(v uint64, n uint) {
+	w.cur |= v << w.nbit
+	w.nbit += n
+	for w.nbit >= 8 {
+		w.out = append(w.out, byte(w.cur))
+		w.cur >>= 8
+		w.nbit -= 8
+	}
+}
+func (w *vxBitWriter) align() {
+	if w.nbit > 0 {
+		w.out = append(w.out, byte(w.cur))
+		w.cur, w.nbit = 0, 0
+	}
+}
+
+// huffman codes are written most-significant bit first
+func (w *vxBitWriter) code(c uint64, n uint) {
+	for i := int(n) - 1; i >= 0; i-- {
+		w.bits((c>>uint(i))&1, 1)
+	}
+}
+
+func vxDeflateStartingWith(first byte, payload []byte) []byte {
+	w := &vxBitWriter{}
+	hlit := uint64(first >> 3)
+	w.bits(0, 1)    // BFINAL = 0
+	w.bits(2, 2)    // BTYPE = 10 (dynamic)
+	w.bits(hlit, 5) // HLIT
+	w.bits(0, 5)    // HDIST = 0 -> 1 distance code
+	w.bits(14, 4)   // HCLEN = 14 -> 18 code length code lengths
+	// order: 16,17,18,0,8,7,9,6,10,5,11,4,12,3,13,2,14,1 ; lengths: sym18=2, sym0=1, sym1=2
+	order := []int{16, 17, 18, 0, 8, 7, 9, 6, 10, 5, 11, 4, 12, 3, 13, 2, 14, 1}
+	for _, sym := range order {
+		switch sym {
+		case 18, 1:
+			w.bits(2, 3)
+		case 0:
+			w.bits(1, 3)
+		default:
+			w.bits(0, 3)
+		}
+	}
+	// canonical codes: sym0 -> 0 (1 bit); sym1 -> 10; sym18 -> 11
+	zeroRun := func(n int) { // n in 11..138
+		w.code(3, 2)
+		w.bits(uint64(n-11), 7)
+	}
+	zeroRun(138)
+	zeroRun(118) // 256 zero lengths for literals 0..255
+	w.code(2, 2) // length 1 for symbol 256 (end of block)
+	for i := 0; i < int(hlit); i++ {
+		w.code(0, 1) // symbols 257.. unused
+	}
+	w.code(0, 1) // the single distance code: unused
+	w.code(0, 1) // block data: end-of-block (the only code, length 1)
+	// stored blocks with the payload
+	for first := true; first || len(payload) > 0; first = false {
+		chunk := payload
+		if len(chunk) > 65535 {
+			chunk = chunk[:65535]
+		}
+		payload = payload[len(chunk):]
+		final := uint64(0)
+		if len(payload) == 0 {
+			final = 1
+		}
+		w.bits(final, 1)
+		w.bits(0, 2)
+		w.align()
+		n := len(chunk)
+		w.out = append(w.out, byte(n), byte(n>>8), byte(^n), byte((^n)>>8))
+		w.out = append(w.out, chunk...)
+	}
+	return w.out
 }
